@@ -75,7 +75,10 @@ Fixpoint reports (dn : bool) (own : bytes) (m : mmap) (h : list mev) : list mmap
 (* every event with what its TXT record validates to (valid mandatory TXT: version, id, path,
    ski, boolean register; not the local SKI); computed once per history *)
 Definition aev := (option mentry * mev)%type.
-Definition annotate (own : bytes) (h : list mev) : list aev := map (fun ev => (ev_entry own ev, ev)) h.
+(* valid in the property's own words (Txt.txt_valid); the fields are those the code extracts *)
+Definition spec_entry (own : bytes) (ev : mev) : option mentry :=
+  if txt_valid own (v_txt ev) then ev_entry own ev else None.
+Definition annotate (own : bytes) (h : list mev) : list aev := map (fun ev => (spec_entry own ev, ev)) h.
 
 (* the events that concern service [ski] *)
 Definition is_ski (ski : bytes) (p : aev) : bool :=
@@ -179,7 +182,9 @@ Definition std_recs : list elements := map rec_of
     [("id","i1");("path","/ship/");("register","true");("txtvers","1")];
     [("path","/ship/");("register","false");("ski","s4");("txtvers","1")];
     [("id","me");("path","/ship/");("register","true");("ski","own0");("txtvers","1")];
-    [("id","i2");("register","true");("ski","s2");("txtvers","1")] ]%string.
+    [("id","i2");("register","true");("ski","s2");("txtvers","1")];
+    [("id","i3");("path","/ship/");("register","true");("ski","s3")];
+    [("id","i4");("path","/ship/");("ski","s4");("txtvers","1")] ]%string.
 
 Definition name_of (i : N) : bytes := 110 :: dec i.
 Definition host_of (i : N) : bytes := 104 :: dec i.
